@@ -103,6 +103,10 @@ def run(ctx):
     n = check_capacity(ctx, prog)
     ctx.floor('R-CAP allocating members', n, 10)
 
+    # ---------------------------------------------------------------- an element that fits is stored in place
+    n = check_fits(ctx, prog)
+    ctx.floor('C01.fits', n, 1)
+
     # ---------------------------------------------------------------- thin wrappers
     n = 0
     for cls in ('asl::Stack', 'asl::Queue'):
@@ -912,3 +916,56 @@ def check_rebind(ctx, prog):
         ctx.check(f['n'] in allowed, 'C01.rebind', f['pq'], role, fwhere(f, sites[0].get('l')), '`%s` in %s' % (pe(sites[0])[:50], f['n']),
                   '%s attaches this handle to other storage (`%s`): every other live handle on the array keeps the old contents and the handles are silently separated, although the operation is documented to change the array' % (f['n'], pe(sites[0])[:60]))
     ctx.floor('C01.rebind re-binding members', n, 2)
+
+
+
+def check_fits(ctx, prog):
+    """C01.fits: insert(k, x) - the routine behind operator<<, push and put - moves the block only when the new element does
+    not fit: for every (count n, capacity s) with n + 1 <= s the realloc is not reached.  The other handles of the array point
+    at the block (the documented sharing scheme); a move that is not forced by growth takes a well-formed history - a second
+    handle, an append within capacity - to a state where that handle reads freed storage.  Decided by evaluating the guards of
+    the reallocation on a grid of (n, s)."""
+    import bounded, bytesets
+    n_ = 0
+    seen = set()
+    for f in prog.functions:
+        if f.get('pq') != 'asl::Array::insert' or not f.get('body') or len(f['params']) != 2:
+            continue
+        if T(f, T(f, f['params'][1]['t']).get('to') or f['params'][1]['t']).get('recp') == 'asl::Array':
+            continue
+        sites = [e for e in fn_exprs(f) if e.get('k') == 'call' and (e.get('fn') or '') in ('realloc', 'malloc', '::realloc', '::malloc')]
+        role = 'insert(int,const T &):the block moves only when the element does not fit'
+        if role in seen:
+            continue
+        if not sites:
+            continue
+        seen.add(role)
+        n_ += 1
+        ctx.analysed(f)
+        g = q.Guarded(f)
+        e = sites[0]
+        try:
+            by_id, by_text = {}, {}
+            for c, pol, kind in g.of(e):
+                if isinstance(c, dict) and kind != 'case':
+                    bi, bt = bounded.atoms_of(prog, f, c)
+                    by_id.update(bi)
+                    by_text.update(bt)
+        except bytesets.Undecidable as u:
+            ctx.undecided('C01.fits', f['pq'], role, fwhere(f, e['l']), 'guards of the reallocation not evaluable: %s' % u)
+            continue
+        cnt = [t for t in by_text if by_text[t].get('k') == 'mem' and by_text[t].get('f') == 'n']
+        cap = [t for t in by_text if by_text[t].get('k') == 'mem' and by_text[t].get('f') == 's']
+        if by_id or len(by_text) != 2 or len(cnt) != 1 or len(cap) != 1:
+            ctx.undecided('C01.fits', f['pq'], role, fwhere(f, e['l']), 'the guards of the reallocation are not a relation between the element count and the capacity of the header (%s)' % sorted(list(by_text) + list(by_id.values())))
+            continue
+        ct, cp = cnt[0], cap[0]
+        st, info = bounded.decide(prog, f, g.of(e), lambda ev: ev.by_text[ct] > ev.by_text[cp] or ev.by_text[ct] + 1 > ev.by_text[cp], {}, by_text, range(0, 9), G=g)
+        ctx.evaluations += 81
+        if st == 'holds':
+            ctx.ok('C01.fits', f['pq'], role, fwhere(f, e['l']), 'the reallocation is reached only for n + 1 > s on the (n, s) grid (%s points)' % info)
+        elif st == 'fails':
+            ctx.violation('C01.fits', f['pq'], role, fwhere(f, e['l']), 'with %s the element fits, yet the block is reallocated: another handle of the array keeps the old block (reads and its destructor touch freed storage), although nothing had to grow' % ', '.join('%s = %s' % kv for kv in sorted(info.items())))
+        else:
+            ctx.undecided('C01.fits', f['pq'], role, fwhere(f, e['l']), str(info))
+    return n_
